@@ -239,7 +239,15 @@ PoolC08 == <<
   [W("ab.ba^") EXCEPT !.left = "dpipe", !.mkind = "csp", !.mval = "", !.exc = TRUE, !.dom = {"ba.com"}],
   [W("ab.ba^") EXCEPT !.left = "dpipe", !.mkind = "removeparam", !.mval = "ab"],
   [W("http://") EXCEPT !.left = "pipe"], [W("/ab-") EXCEPT !.badfilter = TRUE],
-  [W("a") EXCEPT !.pos = {"script"}, !.dom = {"ba.com", "abb.com"}]
+  [W("a") EXCEPT !.pos = {"script"}, !.dom = {"ba.com", "abb.com"}],
+  \* equal-priority redirect rules naming different resources, one of them token-less with two domains (shared
+  \* between two buckets, stored after the sorted part of an optimised bucket): which one wins is decided by
+  \* the order inside the bucket, which a reload has to preserve.  Both name assignments, since the order
+  \* depends on the hash of the rule text.
+  [W("*") EXCEPT !.pos = {"script"}, !.dom = {"ba.com", "abb.com"}, !.mkind = "redirect", !.mval = "r1"],
+  [W("*") EXCEPT !.pos = {"script"}, !.dom = {"ba.com"}, !.mkind = "redirect", !.mval = "r2"],
+  [W("*") EXCEPT !.pos = {"script"}, !.dom = {"ba.com", "abb.com"}, !.mkind = "redirect", !.mval = "r2"],
+  [W("*") EXCEPT !.pos = {"script"}, !.dom = {"ba.com"}, !.mkind = "redirect", !.mval = "r1"]
 >>
 ReqsC08 == <<
   MkReq("https", "ab.ba", "/ab-", "script", "x.com"),
